@@ -181,30 +181,29 @@ def started_after_cancel(rr, info) -> list:
 
 
 def cancel_propagation(rr, info) -> list:
-    """Every cancellation that entered the runtime (a task's cancel sent by
-    its worker, or the server's cancel of a compilation on behalf of a
-    client) reaches every worker: that is the only way descendants that
-    are, or will be, queued elsewhere can stop being started."""
+    """A worker that never learns of a cancellation cannot stop starting
+    the cancelled work: if a descendant-or-self of a cancelled address
+    starts, after the cancellation was issued, on a worker that does not
+    receive the CANCEL before the system falls idle, descendants have not
+    "stopped being started" there and never would.  (Starting work that
+    was already queued on a worker which *is* told, a little later, is the
+    legal non-pre-emptive behaviour and is not flagged.)"""
     out = []
     snap = rr.idle_snapshot
     if snap is None:
         return out
-    alive = set(snap['workers'])
-    if not alive:
-        return out
     idle_seq = getattr(rr, 'idle_seq', None) or 10 ** 12
-    sent = {}
-    got = {}
+    issued = {}           # cancelled address -> seq the cancel was issued
+    got = {}              # address -> {worker name: seq received}
     for seq, ev, src, dst, desc in C.wire(rr):
         if seq > idle_seq or desc[0] != 'CANCEL' \
                 or not isinstance(desc[1], tuple):
             continue
         if ev == 'SEND' and (src.startswith('w') or src == 'server'):
-            sent.setdefault(desc[1], seq)
+            issued.setdefault(desc[1], seq)
         elif ev == 'RECV' and dst.startswith('w'):
-            got.setdefault(desc[1], set()).add(dst)
-    # client cancels of live compilations: the server must turn them into
-    # a CANCEL of the root task
+            got.setdefault(desc[1], {}).setdefault(dst, seq)
+    # client cancels of live compilations, acknowledged to the client
     srv = (snap.get('servers') or {}).get('server') or {}
     tasks = srv.get('tasks') or {}
     for ci, c in enumerate(rr.clients):
@@ -224,18 +223,35 @@ def cancel_propagation(rr, info) -> list:
                 state[op['t']] = 'cancelled'
                 mb = tasks.get(ids[op['t']])
                 if mb is not None and h.get('ret', 0) <= idle_seq:
-                    sent.setdefault((-1, mb, 0), h['seq'])
-    info['cancels_tracked'] = len(sent)
-    for addr in sent:
-        missing = sorted(alive - got.get(addr, set()))
-        if missing:
-            out.append(C.V('CANCEL_NOT_PROPAGATED',
-                           'client-cancel' if addr[0] == -1
-                           else 'task-cancel',
-                           f'CANCEL {addr} never reached worker(s) '
-                           f'{missing} although they are alive at idle '
-                           f'quiescence'))
-            break
+                    a = (-1, mb, 0)
+                    issued[a] = min(issued.get(a, 10 ** 12), h['ret'])
+    info['cancels_tracked'] = len(issued)
+    if not issued:
+        return out
+    # a worker that has already ended (attached runtime closed after its
+    # only compilation returned, crash) starts nothing further: only
+    # workers still alive at idle can be "never told"
+    alive = set(getattr(rr, 'alive_at_idle', None) or [])
+    for r in rr.rec:
+        if r[1] != 'start' or r[0] > idle_seq:
+            continue
+        wid, addr = r[3]
+        if addr is None:
+            continue
+        wname = f'w{wid}'
+        for a in C.ancestors_or_self(rr, tuple(addr)):
+            t_issue = issued.get(a)
+            if t_issue is None or r[0] < t_issue:
+                continue
+            if wname in alive and wname not in got.get(a, {}):
+                out.append(C.V(
+                    'CANCEL_NOT_PROPAGATED',
+                    'client-cancel' if a[0] == -1 else 'task-cancel',
+                    f'task {tuple(addr)} (node {r[2]}), a descendant of '
+                    f'cancelled {a}, started on {wname} after the cancel '
+                    f'was issued, and {wname} is never told about the '
+                    f'cancel before the system falls idle'))
+                return out
     return out
 
 
